@@ -137,7 +137,8 @@ PLANS["C16"] = {
 PLANS["C18"] = {
     "props": ["C18"], "ops": ["ht", "hts", "tbc"],
     "mc": [mc("C18", geoms("GCols", "GCols"), ports({"api": 1, "chars": 1}, ALLP)),
-           mc("C18w", geoms("GWideQuick", "GWide"), ports({"api": 1, "chars": 3}, {"api": 1, "chars": 2}))],
+           mc("C18w", geoms("GWideQuick", "GWide"), ports({"api": 1, "chars": 3}, {"api": 1, "chars": 2})),
+           mc("C18all", geoms("GAllWQuick", "GAllW"), ports({"api": 1}, {"api": 1, "chars": 4}))],
     "gen": [gen("star", 12, 300, focus="C18", steps=40, every=6, per=24), walk("C18", 160, 4000), walk("C18", 80, 2000, port="chars"), walk("C18", 40, 1000, geom="large", steps=60)],
     "rule": "MC: HT/HTS/TBC{absent,0..4,9999} from every cursor column incl. pending wrap; TV: random walks with HTS/TBC edits and "
             "width changes (resize, DECCOLM) between setting a stop and using it, widths up to 140",
